@@ -98,7 +98,7 @@ LAB = ["b0", "b1", "x", "genid1", "N" + H1, "N" + H2, "n" + H1 + "b1", "f" + H2 
 EMPTY = 31
 NEAR = [0] + list(range(12, 27))
 DIGITS = [27, 28, 29, 30, 21]
-COLON_OK = {"nt", "nquads", "trix", "json-ld", "hext"}
+COLON_OK = {"nt", "nquads", "trix", "json-ld", "hext", "patch"}
 N3_FAMILY = ["turtle", "n3", "trig"]
 
 
@@ -181,10 +181,10 @@ ROUTES = ["location", "srcpath", "pathlib", "fileb", "filet", "insrc", "pyobj"]
 FMTARGS = ["alias", "guess"]
 JL_MODES = ["coerce", "reverse", "included", "nestgraph"]
 EXT = {"nt": ".nt", "nquads": ".nq", "turtle": ".ttl", "n3": ".n3", "trig": ".trig", "xml": ".rdf", "trix": ".trix",
-       "json-ld": ".jsonld", "hext": ".hext"}          # rdflib.util.guess_format knows all but .hext
+       "json-ld": ".jsonld", "hext": ".hext", "patch": ".rdp"}          # rdflib.util.guess_format knows all but .hext
 ALIASES = {"nt": ["ntriples", "nt11", "application/n-triples"], "nquads": ["application/n-quads"],
            "turtle": ["ttl", "text/turtle"], "n3": ["text/n3"], "trig": ["application/trig"],
-           "xml": ["application/rdf+xml"], "trix": ["application/trix"], "json-ld": ["application/ld+json"], "hext": ["hext"]}
+           "xml": ["application/rdf+xml"], "trix": ["application/trix"], "json-ld": ["application/ld+json"], "hext": ["hext"], "patch": ["patch"]}
 
 
 def _gen_style(rng, share=0.3):
@@ -199,12 +199,16 @@ def _gen_style(rng, share=0.3):
     return st
 
 
-def _gen_doc(rng, sink, idx, pool, earlier, init_bn, share=0.3, ctxcase=False):
+def _gen_doc(rng, sink, idx, pool, earlier, init_bn, share=0.3, ctxcase=False, init_quads=()):
     """abstract document for parse call #idx; `earlier` = [(I, [K…])] documents with marker triples"""
     quadfmt = sink not in PLAIN and rng.random() < 0.6
     fmt = rng.choice(D.QUAD_FMTS if quadfmt else D.TRIPLE_FMTS if sink != "simple" else SIMPLE_FMTS)
     if ctxcase:                  # a case about bnode_context=: N-Triples / N-Quads documents
         fmt = "nquads" if quadfmt else "nt"
+    elif sink == "ds" and rng.random() < share / 4:
+        # (round h) an RDF Patch: `A` rows (and sometimes a `D` row); its labels are the store's nodes by design
+        fmt, quadfmt = "patch", True
+        earlier = []
     anon_ok = fmt in D.ANON_SO and rng.random() < 0.5
     # "counting" documents: all-digit labels next to several [] / ( ) nodes, in the syntaxes whose parser numbers its nodes
     counting = any(k in DIGITS for k in pool) and rng.random() < 0.7 and not ctxcase
@@ -372,6 +376,21 @@ def _gen_doc(rng, sink, idx, pool, earlier, init_bn, share=0.3, ctxcase=False):
     if sink not in PLAIN and rng.random() < 0.3:
         into = rng.choice(["i20", "i21"] + init_bn[:2])
     d = {"fmt": fmt, "quads": quads, "into": into, "style": _gen_style(rng, share)}
+    if fmt == "patch":
+        marks = []
+        d["quads"] = quads = [q for q in quads if q[1] != "i%d" % MARK_P]
+        if not quads:
+            d["quads"] = quads = [["n%d" % legal[0], "i%d" % PRED_I[0], "i2", "-"]]
+        if rng.random() < 0.45:      # a D row: a statement of the initial content, one of this patch's own rows, or nothing
+            r = rng.random()
+            writable = [q0 for q0 in init_quads if all(t[0] != "b" or (int(t[1:]) != EMPTY and label_ok(int(t[1:]), "patch")) for t in q0)]
+            if r < 0.5 and writable:
+                q0 = rng.choice(writable)
+                d["dels"] = [[("n" + t[1:]) if t[0] == "b" else t for t in q0[:3]] + ["-" if q0[3] == "i0" else ("n" + q0[3][1:]) if q0[3][0] == "b" else q0[3]]]
+            elif r < 0.8:
+                d["dels"] = [list(rng.choice(quads))]
+            else:
+                d["dels"] = [["i%d" % rng.choice(SUBJ_I), "i%d" % rng.choice(PRED_I), "l0", "-"]]
     if opts:
         d["opts"] = opts
     return d, marks
@@ -424,9 +443,11 @@ def gen_case(rng, tier, i):
                 d["opts"] = dict(src["opts"])
             elif src.get("opts"):
                 d["fmt"], d["style"], d["opts"] = src["fmt"], dict(src["style"]), dict(src["opts"])
+            if src.get("dels") and d["fmt"] == "patch":
+                d["dels"] = [list(q) for q in src["dels"]]
             docs.append(d)
             continue
-        d, marks = _gen_doc(rng, sink, idx, pool, earlier, init_bn, share, ctxcase)
+        d, marks = _gen_doc(rng, sink, idx, pool, earlier, init_bn, share, ctxcase, init)
         docs.append(d)
         if marks:
             earlier.append((idx, marks))
@@ -441,6 +462,11 @@ def gen_case(rng, tier, i):
             labs = rng.sample(pool, min(len(pool), rng.randint(1, 2)))
             nodes = rng.sample([x for x in range(12)], len(labs))
             ctxinit[str(kctx)] = [[k, "b%d" % n] for k, n in zip(labs, nodes) if k != EMPTY]
+    if any(d["fmt"] == "hext" for d in docs):
+        for d in docs:          # (the same for RDF Patch documents, whose labels are the store's nodes: read as N-Quads)
+            if d["fmt"] == "patch":
+                d["fmt"] = "nquads"
+                d.pop("dels", None)
     if any(d["fmt"] == "hext" for d in docs):
         # hextuples keeps labels verbatim (known finding K1); next to a preserve_bnode_ids=True document the two would
         # share nodes by id, and K1 would surface on a document that is not a hext document: not combined
@@ -553,7 +579,7 @@ def _graph_of(target, kind, name):
 
 
 FORMAT_NAME = {"nt": "nt", "nquads": "nquads", "turtle": "turtle", "n3": "n3", "trig": "trig", "xml": "xml",
-               "trix": "trix", "json-ld": "json-ld", "hext": "hext"}
+               "trix": "trix", "json-ld": "json-ld", "hext": "hext", "patch": "patch"}
 
 
 def _parse(target, kind, into_term, fmt, text, style, bnode_preds=False, plugins=None, stats=None, opts=None, ctxs=None):
@@ -577,7 +603,7 @@ def _parse(target, kind, into_term, fmt, text, style, bnode_preds=False, plugins
     if fmtarg == "alias":
         name = ALIASES[fmt][len(text) % len(ALIASES[fmt])]
         count("format.alias")
-    guess = fmtarg == "guess" and route in ("location", "srcpath", "pathlib", "fileb", "filet") and fmt != "hext"
+    guess = fmtarg == "guess" and route in ("location", "srcpath", "pathlib", "fileb", "filet") and fmt not in ("hext", "patch")
     kw = {} if guess else {"format": name}
     if guess:
         count("format.guessed_from_file_name")
@@ -753,6 +779,30 @@ def _eff_opts(doc):
     return o
 
 
+def _concrete_simple(quads):
+    """abstract statements without references (D rows of a patch) -> concrete quads for the writers"""
+    def term(t):
+        if t == "-":
+            return None
+        if t[0] == "i":
+            return ("i", str(DEFAULT) if int(t[1:]) == 0 else iri_str(int(t[1:])))
+        if t[0] == "l":
+            return ("l",) + lit_tuple(int(t[1:]))
+        return ("n", LAB[int(t[1:]) % len(LAB)])
+    return [tuple(term(t) for t in q) for q in quads]
+
+
+def _patch_quad(q):
+    """the quad a patch row talks about: labels are the store's nodes, no graph column = the dataset's default graph"""
+    def m(t):
+        if t[0] == "i":
+            return URIRef(t[1])
+        if t[0] == "l":
+            return Literal(t[1], lang=t[3], datatype=URIRef(t[2]) if t[2] else None)
+        return BNode(t[1])
+    return (m(q[0]), m(q[1]), m(q[2]), DEFAULT if q[3] is None else m(q[3]))
+
+
 def _iso(a, b, stats=None):
     """isoutil.iso; when its search budget runs out (many interchangeable copies of one structure) fall back to the
     canonical labelling below — counted, so that it stays rare"""
@@ -914,7 +964,8 @@ def _run_impl(case):
         if _eff_into(case, doc) is not None:
             into = _rdf_term(_eff_into(case, doc), bn_init)
             stats["into_named"] = stats.get("into_named", 0) + 1
-        text = D.write(fmt, cq, doc["style"])
+        cdels = _concrete_simple(doc.get("dels") or []) if fmt == "patch" else []
+        text = D.write(fmt, cq, {**doc["style"], "_dels": cdels} if fmt == "patch" else doc["style"])
         if case.get("reuse"):
             doc = {**doc, "style": {**doc["style"], "plugin": True, "route": None, "fmtarg": None}}
         opts = _eff_opts(doc)
@@ -933,6 +984,12 @@ def _run_impl(case):
         after, dups = _quads_of(target)
         # ---- oracle 1: nothing removed or altered
         lost = before - after
+        if fmt == "patch":          # the D rows of an RDF Patch ask for exactly these statements to go (labels = the store's nodes)
+            asked = {tuple(_norm(x) for x in _patch_quad(q)) for q in cdels}
+            if lost & asked:
+                stats["patch_D_row_removed_something"] = stats.get("patch_D_row_removed_something", 0) + 1
+            lost = lost - asked
+            stats["patch_D_rows"] = stats.get("patch_D_rows", 0) + len(cdels)
         if lost:
             viol.append(f"removed: parsing document {idx} ({fmt}) removed {len(lost)} quad(s), e.g. {sorted(map(str, next(iter(lost))))}")
         if dups:
@@ -943,7 +1000,7 @@ def _run_impl(case):
         # again): one node per (dict, label) for all the calls that were given that dict; JSON-LD without
         # generalized_rdf: statements with a blank-node predicate are not part of the RDF the document stands for
         fresh = {}
-        where = DEFAULT if into is None else into
+        where = DEFAULT if into is None or fmt == "patch" else into      # (a patch is applied to the dataset, not to a graph of it)
         scope = ("ctx", opts["ctx"]) if "ctx" in opts else ("inst", opts["inst"]) if "inst" in opts else None
         for q in cq:
             # N3: a label written inside a formula belongs to that formula occurrence (its own scope)
@@ -958,7 +1015,7 @@ def _run_impl(case):
                     return fresh.setdefault((t, fscope), BNode("M%dxF%dn%s" % (idx, fscope[1], t[1])))
                 if t[0] == "n" and opts.get("sk"):
                     return URIRef(GENID + t[1])
-                if t[0] == "n" and opts.get("pre"):
+                if t[0] == "n" and (opts.get("pre") or fmt == "patch"):
                     return BNode(t[1])
                 if t[0] == "n" and scope is not None:
                     return shared_nodes.setdefault((scope, t[1]), BNode("M%s%dx%s" % (scope[0], scope[1], t[1])))
@@ -966,6 +1023,9 @@ def _run_impl(case):
             if opts.get("nogen") and q[1][0] == "n":
                 continue
             merge.add((m(q[0]), m(q[1]), m(q[2]), where if q[3] is None else m(q[3])))
+        for q in cdels:
+            merge.discard(_patch_quad(q))
+            merge.discard(tuple(_norm(x) for x in _patch_quad(q)))
         if err == "ok" and not _iso(after, merge, stats):
             nb = len({x for q in after for x in q if isinstance(x, BNode)})
             nm = len({x for q in merge for x in q if isinstance(x, BNode)})
@@ -999,7 +1059,8 @@ def _run_impl(case):
         obs.append(line)
     # ---- oracle 3: the same document into two fresh targets
     fi = case.get("fresh")
-    if fi is not None and fi < len(case["docs"]) and set(_eff_opts(case["docs"][fi])) & {"ctx", "inst", "sk", "pre"}:
+    if fi is not None and fi < len(case["docs"]) and (set(_eff_opts(case["docs"][fi])) & {"ctx", "inst", "sk", "pre"}
+                                                      or case["docs"][fi]["fmt"] == "patch"):
         fi = None               # (requested sharing / naming: the two-fresh-targets clause is about the default behaviour)
     if fi is not None and fi < len(case["docs"]) and not any(t.startswith("r") for q in case["docs"][fi]["quads"] for t in q):
         doc = case["docs"][fi]
@@ -1118,7 +1179,7 @@ def _run_impl(case):
         stats["ctx_label_shared_between_calls"] = 1
     stats["same_doc_again"] = sum(1 for j, d in enumerate(case["docs"]) if any(d["quads"] == e["quads"] for e in case["docs"][:j]))
     return {"obs": obs, "viol": viol, "nontrivial": bool(shared),
-            "key": repr((kind, case["init"], [(d["fmt"], d["quads"], d["into"]) for d in case["docs"]])),
+            "key": repr((kind, case["init"], [(d["fmt"], d["quads"], d["into"], d.get("dels")) for d in case["docs"]])),
             "stats": stats}
 
 
@@ -1244,6 +1305,8 @@ def _stmt_lines(case, idx, doc):
                     lines.append("close")
         lines.append("q " + " ".join(_model_term_doc(case, idx, t) for t in q))
     lines += ["close"] * len(stack)
+    if doc["fmt"] == "patch":
+        lines += ["d " + " ".join("n%d" % (int(t[1:]) % len(LAB)) if t[0] == "n" else t for t in q) for q in doc.get("dels") or []]
     return lines
 
 
@@ -1326,6 +1389,8 @@ def shrink(case):
                 yield {**case, "docs": docs[:i] + [nd] + docs[i + 1:]}
         if d["into"] is not None:
             yield {**case, "docs": docs[:i] + [{**d, "into": None}] + docs[i + 1:]}
+        for j in range(len(d.get("dels") or [])):
+            yield {**case, "docs": docs[:i] + [{**d, "dels": d["dels"][:j] + d["dels"][j + 1:]}] + docs[i + 1:]}
         for k in list(d.get("opts") or {}):
             yield {**case, "docs": docs[:i] + [{**d, "opts": {a: b for a, b in d["opts"].items() if a != k}}] + docs[i + 1:]}
         if any(d["style"].values()):
